@@ -54,7 +54,10 @@ MORE = {
               "with and without an ignore list) equals a fresh replay; duplicates re-posted by a replaying node change nobody; a replica shown the same log with every stamp in it moved 30 days back "
               "(each message re-signed with its sender's key: the log read a month later) agrees with the live node (clock_independent). Props/SrcFacts.lean, over the clock reads the translator lists "
               "from the source on every run: clock_readers_known, round_machines_read_no_clock (no function under fsm/, fsmservice, the repositories or the board storage reads the wall clock; the only "
-              "readers are the poller's ticker, ProposeSignMessages and handleMessage's request stamp, which is the clock input of the model)."),
+              "readers are the poller's ticker, ProposeSignMessages and handleMessage's request stamp, which is the clock input of the model). Props/C08Poll.lean, the reader's position, for every ignore list, start position and sequence of "
+              "file lengths seen by successive ticks: polls_handed (what the node is handed over all ticks is exactly the kept lines from its start to the longest file seen, in order), each_line_once, nothing_kept_is_missed, ignored_never_handed, "
+              "position_after; counting_reader_repeats (a reader that counts the lines it was handed instead of taking the line's offset + 1 repeats lines as soon as one is ignored); tick_saves_line_offset_plus_one over the regenerated argument of tick's SaveOffset call. "
+              "nodediff: the real poll loop must hand each line once (C08 each_line_once) and, after a reset with an ignore list and a full read, have saved the position after the last line."),
         ref='7 C08', note=NODE_NOTE),
 }
 
